@@ -38,6 +38,9 @@ pub enum ItemSpec {
     Garbage,
     /// a frame whose message holds a 3-byte record identifier (F8)
     ShortId,
+    /// a Sync frame whose fingerprint part has record identifiers of `n` and `n + 1` bytes
+    /// (shorter than the 64 bytes of namespace and author: must not decode)
+    IdLen { n: u8 },
 }
 
 #[derive(Clone, Debug, Serialize, Deserialize)]
@@ -67,7 +70,7 @@ impl C10 {
             6 => ItemSpec::SyncForged,
             7 => ItemSpec::Abort { reason: rng.below(3) as u8 },
             8 => ItemSpec::Garbage,
-            9 => ItemSpec::ShortId,
+            9 => if rng.chance(1, 3) { ItemSpec::ShortId } else { ItemSpec::IdLen { n: *rng.pick(&[0u8, 31, 32, 33, 40, 62]) } },
             10 => ItemSpec::InitOther,
             _ => ItemSpec::Init,
         }
@@ -111,7 +114,10 @@ impl Property for C10 {
                 Op::Bob { items: vec![ItemSpec::Init, ItemSpec::SyncItems { n: 2, have_local: false }], truncated: false, reject: None, fail: Some((1, 1)) }]),
             ("f8-short-identifier".into(), vec![
                 Op::Bob { items: vec![ItemSpec::ShortId], truncated: false, reject: None, fail: None },
-                Op::Bob { items: vec![ItemSpec::Init, ItemSpec::ShortId], truncated: false, reject: None, fail: None }]),
+                Op::Bob { items: vec![ItemSpec::Init, ItemSpec::ShortId], truncated: false, reject: None, fail: None },
+                Op::Bob { items: vec![ItemSpec::Init, ItemSpec::IdLen { n: 40 }], truncated: false, reject: None, fail: None },
+                Op::Bob { items: vec![ItemSpec::Init, ItemSpec::IdLen { n: 32 }], truncated: false, reject: None, fail: None },
+                Op::Alice { items: vec![ItemSpec::IdLen { n: 63 }], truncated: false, fail: None }]),
             ("declined-changes-nothing".into(), vec![
                 Op::Put { a: 0, key: b"a".to_vec(), c: Some(0), ts: 5 }, Op::PeerPut { a: 1, key: b"b".to_vec(), c: Some(0), ts: 5 },
                 Op::Bob { items: vec![ItemSpec::Init, ItemSpec::SyncItems { n: 2, have_local: true }], truncated: false, reject: Some(1), fail: None }]),
@@ -259,6 +265,7 @@ impl Property for C10 {
                             }
                             ItemSpec::Abort { reason: r } => (encode_frame(Frame::Abort { reason: reason(*r) })?, format!("abort@{}", r % 3)),
                             ItemSpec::Garbage => (vec![0, 0, 0, 3, 9, 9, 9], "garbage".to_string()),
+                            ItemSpec::IdLen { .. } => (vec![], String::new()),
                             ItemSpec::ShortId => {
                                 // Sync( [RangeFingerprint { x: 3 bytes, y: 2 bytes, fp }] )
                                 let mut p = vec![1u8, 1, 0, 3, 1, 2, 3, 2, 4, 5];
@@ -267,6 +274,18 @@ impl Property for C10 {
                                 f.extend(p);
                                 (f, "garbage".to_string())
                             }
+                        };
+                        let (bytes, itok) = if let ItemSpec::IdLen { n } = it {
+                            let mut p = vec![1u8, 1, 0, *n];
+                            p.extend((0..*n).map(|i| 0x10 + i));
+                            p.push(*n + 1);
+                            p.extend((0..*n + 1).map(|i| 0x60 + i));
+                            p.extend([9u8; 32]);
+                            let mut f = (p.len() as u32).to_be_bytes().to_vec();
+                            f.extend(p);
+                            (f, "garbage".to_string())
+                        } else {
+                            (bytes, itok)
                         };
                         frame_values.push(match it {
                             ItemSpec::SyncItems { n, .. } => *n,
